@@ -533,6 +533,80 @@ def contain_family(rng, thorough):
 
 
 # ---------------------------------------------------------------------------------------------
+# part A, representation family: a hoisted value need not be held the way the parser holds the
+# literal - a short string literal is an inline small string, a variable may hold the same text
+# on the heap (Arc<str>), as a safe string or as the result of `~`; an integer literal is a u64
+# (or u128), a variable may hold it as i64 / i128 / u128.  Where the value is only looked up or
+# compared (map keys, `in`, ==, subscripts, unique) the representation must not matter.
+# ---------------------------------------------------------------------------------------------
+REPS = {"str": ["arc", "safe", "string"], "int": ["i64", "u64", "i128", "u128"]}
+
+
+def subst_var(e, name, new):
+    if e == ("var", name):
+        return new
+    ks, rb = kids(e)
+    return rb([subst_var(k, name, new) for k in ks]) if ks else e
+
+
+def rep_variants(e, only=None):
+    """single-atom hoists with the variable held in every other representation (+ produced by `~` for strings),
+    and the all-atoms hoist with mixed representations"""
+    out = []
+    atoms = [x for x in subexprs_atoms(e)]
+    for i, a in enumerate(atoms):
+        if a[0] not in REPS or (only is not None and i not in only):
+            continue
+        for rep in REPS[a[0]]:
+            e2, ctx = hoist_atoms(e, {i})
+            ctx = {k: dict(v, rep=rep) for k, v in ctx.items()}
+            out.append(("atoms:%d rep:%s" % (i, rep), e2, ctx))
+        if a[0] == "str":
+            e2, ctx = hoist_atoms(e, {i})
+            out.append(("atoms:%d rep:concat" % i, subst_var(e2, "h%d" % i, ("bin", "~", ("var", "h%d" % i), ("str", ""))), ctx))
+    if only is None and atoms:
+        e2, ctx = hoist_atoms(e, set(range(len(atoms))))
+        for j, (k, v) in enumerate(sorted(ctx.items())):
+            if v["t"] in REPS:
+                ctx[k] = dict(v, rep=REPS[v["t"]][j % len(REPS[v["t"]])])
+        out.append(("atoms:all rep:mixed", e2, ctx))
+    return out
+
+
+def subexprs_atoms(e):
+    """the atoms in the order hoist_atoms numbers them"""
+    if e[0] in ATOMS:
+        yield e
+        return
+    for k in kids(e)[0]:
+        yield from subexprs_atoms(k)
+
+
+def rep_family(rng, thorough):
+    I = lambda n: ("int", n)
+    S = lambda x: ("str", x)
+    keys = ["color", "size", "a", "", "twenty-two bytes long!!", "é"]
+    out = []
+    for k in keys:
+        other = "size" if k != "size" else "w"
+        m2 = ("map", [(S(k), I(1)), (S(other), I(2))])
+        out += [("item", m2, S(k)), ("cmp", S(k), [("in", ("map", [(S(k), I(1))]))]), ("cmp", S(k), [("notin", m2)]),
+                ("filter", "length", ("map", [(S(k), I(1)), (S(k), I(2))]), [], []), ("item", ("map", [(S(k), I(1)), (S(k), I(2))]), S(k)),
+                ("cmp", S(k), [("==", S(k))]), ("cmp", S(k), [("==", S(k)), ("!=", S(other))]), ("cmp", S(k), [("in", ("list", [S(other), S(k)]))]),
+                ("filter", "length", ("filter", "list", ("filter", "unique", ("list", [S(k), S(k), S(other)]), [], []), [], []), [], []),
+                ("item", ("call", "dict", [m2], []), S(k)), ("cmp", S(k), [("in", ("var", "cm"))]), ("item", ("var", "cm"), S(k)),
+                ("filter", "default", ("item", m2, S(k)), [I(0)], []),
+                ("filter", "length", ("filter", "dictsort", m2, [], []), [], [])]        # (never an expression that hands the key itself back: a safe key is a different value)
+    for n in [0, 1, 2, 255, 2 ** 31, 2 ** 63 - 1, 2 ** 63, 2 ** 64 - 1, 2 ** 64, 2 ** 127 - 1]:
+        mi = ("map", [(I(n), I(7)), (I(n + 1), I(8))])
+        out += [("item", mi, I(n)), ("cmp", I(n), [("in", mi)]), ("filter", "length", ("map", [(I(n), I(1)), (I(n), I(2))]), [], []),
+                ("cmp", I(n), [("==", I(n))]), ("cmp", I(n), [("in", ("list", [I(n + 1), I(n)]))]),
+                ("filter", "length", ("filter", "list", ("filter", "unique", ("list", [I(n), I(n), I(3)]), [], []), [], []), [], []),
+                ("cmp", I(n), [("<", I(n + 1)), ("<=", I(n + 1))]), ("bin", "-", I(n + 1), I(n))]
+    return [e for e in out if e != ("none",)]
+
+
+# ---------------------------------------------------------------------------------------------
 # generator C (core fragment, where Lang/Interp.v is faithful: typed so that no operator meets
 # operand kinds the reference evaluator does not model)
 # ---------------------------------------------------------------------------------------------
@@ -1474,10 +1548,12 @@ def main():
 
     # ---------------- part A -------------------------------------------------------------------
     exprs = []
+    rep_all, rep_needle = set(), set()        # sources of the expressions that also get representation variants
     if chk.replay:
         rp = json.load(open(chk.replay))["replay"]
         if "ast" in rp:
             exprs.append((eval(rp["ast"]), rp.get("undefined", "lenient")))
+            rep_all.add(src(exprs[-1][0]))
     else:
         n = 80000 if chk.thorough else 4000
         g = GenA(chk.rng)
@@ -1505,7 +1581,14 @@ def main():
         for e in cfam:
             exprs.append((e, chk.rng.choice(MODES)))
             hist["partA_containment_family"] += 1
-        n += len(fam) + len(cfam)
+        rfam = [] if os.environ.get("C04_NO_SEEDS") else rep_family(chk.rng, chk.thorough)
+        for e in rfam:
+            exprs.append((e, "lenient"))
+            rep_all.add(src(e))
+            hist["partA_representation_family"] += 1
+        for e in cfam:
+            rep_needle.add(src(e))
+        n += len(fam) + len(cfam) + len(rfam)
         po_limit = len(exprs) + (0 if chk.thorough else 600)
         tries = 0
         while len(exprs) < n and tries < 20 * n:
@@ -1525,7 +1608,7 @@ def main():
         po_limit = len(exprs)
     for b0 in range(0, len(exprs), BATCH):          # batches keep the memory of the thorough tier flat
         bex = exprs[b0:b0 + BATCH]
-        vss = [variants_of(e) for e, _ in bex]
+        vss = [variants_of(e) + (rep_variants(e) if src(e) in rep_all else rep_variants(e, only=[0]) if src(e) in rep_needle else []) for e, _ in bex]
         reqs = [request_for(e, md, vs) for (e, md), vs in zip(bex, vss)]
         nvariants += sum(len(v) for v in vss)
         for rel in [False, True] + po_profiles:
